@@ -12,6 +12,7 @@ const (
 	vxClassValue = 3
 	vxClassSmall = 4
 	vxClassPrint = 5
+	vxClassSmallWS = 6
 )
 
 const (
